@@ -383,6 +383,12 @@ func (l *Listener) talkSub(a string, n *com.Packet, o bool) (connHost, uint32, *
 		x = ok && s.ID != n.Device
 	)
 	if l.s.lock.RUnlock(); !ok || x {
+		if n.Empty() && n.ID == SvHello {
+			if cout.Enabled {
+				l.log.Error("[%s:%s/M] %s: Received an empty hello Packet!", l.name, n.Device, a)
+			}
+			return nil, 0, nil, ErrMalformedPacket
+		}
 		if n.ID != SvHello || x {
 			if cout.Enabled {
 				l.log.Warning("[%s:%s/M] %s: Received a non-hello Packet from a unregistered client!", l.name, n.Device, a)
